@@ -53,6 +53,7 @@ THEOREMS = [
     "OllamaVerif.C13.fold_same_path",
     "OllamaVerif.C13.manifest_path_confined_cache",
     "OllamaVerif.C13.ext_accepted_fq",
+    "OllamaVerif.C13.roundtrip_names_bare_partial",
     "OllamaVerif.Tie.C13.first_sets_match",
     "OllamaVerif.Tie.C13.rest_sets_match",
     "OllamaVerif.Tie.C13.length_limits_match",
@@ -125,8 +126,8 @@ def run(ctx):
     corpus = os.path.join(core.ROOT, "corpus", "C13")
     sizes = {
         #          quick: (VERIF_N, exhaustive len)   thorough
-        "model": ((4000, 3), (120000, 4)),
-        "names": ((4000, 3), (120000, 4)),
+        "model": ((4000, 3), (200000, 5)),
+        "names": ((4000, 3), (200000, 5)),
         "blob": ((3000, 3), (60000, 4)),
         "server": ((3000, 3), (60000, 4)),
         "client": ((3000, 3), (60000, 4)),
@@ -163,7 +164,7 @@ def run(ctx):
     ]
     return ctx.finish(
         level="proof",
-        rule="every string of length ≤ 3 (quick) / ≤ 4 (thorough) over a 16-symbol alphabet of class representatives "
+        rule="every string of length ≤ 3 (quick) / ≤ 4, ≤ 5 for the two name parsers (thorough) over a 16-symbol alphabet of class representatives "
              "(/ \\ : @ . - _ NUL 0x80 0xFF A a b 0 ~ space) as a name (both parsers, legacy ModelPath, extended name), "
              "as a name relative path and as a digest; parts on and around every length limit with an offending byte "
              "at start/middle/end; seeded structured names (well-formed / 1–3 mutations / with digest / many "
